@@ -301,3 +301,48 @@ def r18_cfp_calendar_free_productions(ctx: Ctx) -> RuleResult:
     rr = RuleResult("R18.cfp", "no calendar-bearing result is assembled from calendar-free pieces (day number, instant, local instant) while a calendar-bearing value is in hand", min_instances=100)
     check_calendar_free_productions(ctx, rr)
     return rr
+
+
+# functions of the interval files from which an explicit `raise OverflowError` is reachable today, each reviewed: they perform
+# open-ended date / instant arithmetic whose result may legitimately fall outside the calendar or the Instant range
+OVERFLOW_REVIEWED = {
+    "DateInterval.__iter__": "steps with plus_days; by construction it stops at `end`, the reachable raise is the generic guard of date addition",
+    "DateInterval.__repr__": "formats through the text layer (which converts via instants)",
+    "Interval.__repr__": "formats through the text layer",
+    "Interval.duration": "end - start of two arbitrary instants",
+    "Period.__date_components_between": "adds trial periods to the start date (documented to raise when the calendar is left)",
+    "Period.between": "same (public entry)",
+    "YearMonth.plus_months": "open-ended month arithmetic (documented)",
+}
+
+
+@rule("C18")
+def r18_9_total_functions_do_not_overflow(ctx: Ctx) -> RuleResult:
+    """Set operations, membership, length, equality and the YearMonth -> DateInterval conversion always have an answer inside the
+    calendar, so nothing on their way may perform open-ended date arithmetic: no explicit `raise OverflowError` is reachable from
+    them (exception-effect analysis over the resolved call graph).  The functions that do reach one today are listed with the
+    reason; any other function of the interval files that starts to reach it computes through an intermediate value that can fall
+    off the end of the calendar (e.g. `start.plus_months(1).plus_days(-1)` for the last month)."""
+    from ..core import anchor_files
+    from ..exc import ExcAnalysis, ExcConfig
+
+    rr = RuleResult("R18.9", "interval / year-month operations that always have an answer reach no `raise OverflowError` (no intermediate value outside the calendar)", min_instances=80)
+    A = ExcAnalysis(ctx, ExcConfig())
+    files = anchor_files("C18")
+    seen_reviewed = set()
+    for f in sorted(set(ctx.M.func_of_node.values()), key=lambda x: x.qual):
+        if f.mod.rel not in files or isinstance(f.node, ast.Lambda) or f.cls is None or f.parent is not None:
+            continue
+        rr.inst()
+        esc = A.escapes(f)
+        it = esc.values() if isinstance(esc, dict) else esc
+        ov = sorted({(e.fn, e.what) for e in it if e.exc == "OverflowError" and e.kind == "raise"})
+        if not ov:
+            rr.ok()
+        elif f.qual in OVERFLOW_REVIEWED:
+            seen_reviewed.add(f.qual)
+            rr.ok({"fn": f.qual, "reviewed": OVERFLOW_REVIEWED[f.qual]})
+        else:
+            rr.fail(f.qual, f"can now raise OverflowError (from {ov[0][0]}): it computes through a value that may lie outside the calendar although its own result never does", ctx.loc(f))
+    rr.states += A.calls_seen
+    return rr
